@@ -22,7 +22,8 @@ Returned(res) == { [id |-> res[k].id, port |-> res[k].port, sn |-> res[k].sn, na
 Ports(pr) == {pr[k].port : k \in 1..Len(pr)}
 
 Verdict(v) ==
-  IF v.exc # "" /\ Expected(v.arrivals) # {} THEN "C17/C18: the run raised " \o v.exc \o ": the hosts that answered with a well-formed reply are not reported"
+  IF v.exc # "" /\ Len(v.probes) = 0 THEN "C17: the run raised " \o v.exc \o " before any probe was sent (the devices on the network were never asked)"
+  ELSE IF v.exc # "" /\ Expected(v.arrivals) # {} THEN "C17/C18: the run raised " \o v.exc \o ": the hosts that answered with a well-formed reply are not reported"
   ELSE IF v.exc # "" THEN "C18: the run raised " \o v.exc \o " instead of omitting the bad responder"
   ELSE IF Len(v.probes) = 0 THEN "C17: no probe was sent"
   ELSE IF \E k \in 1..Len(v.probes) : ProbeClause(v.probes[k].data, v.probes[k].o) # "ok"
